@@ -2,9 +2,9 @@
 
 Every run:
  1. re-checks coq/theories/Properties/C19.v (accept <-> valid for actor / family / example, never-panic, faithfulness of every
-    accepted field, one lemma per documented rule, refutation witnesses) and the hygiene of the development;
- 2. tie A (H-tie, option level): an option-grammar corpus (valid lists, single-rule mutations, random meta trees, known-finding
-    witnesses; thorough: exhaustive small scopes) goes through the REAL option parsers + cross_check (hook jobs fn:attr_args /
+    accepted field, one lemma per documented rule) and the hygiene of the development;
+ 2. tie A (H-tie, option level): an option-grammar corpus (valid lists, single-rule mutations, random meta trees, regression inputs of
+    the former finding classes; thorough: exhaustive small scopes) goes through the REAL option parsers + cross_check (hook jobs fn:attr_args /
     fn:example_args: ActorAttributeArguments::from + cross_check, ExampleAttributeArguments::from) and through the Coq model
     (Gen/Attr.v parse_args / parse_example); compared: result class and the canonical dump of EVERY field of the accepted
     configuration (members included).  The reference validator valid_* and the denotation denote_* (Gen/AttrSpec.v, written from the
@@ -16,7 +16,9 @@ Every run:
  4. method-level rules (oracle on generated impl blocks violating exactly one documented rule; twin without the violation);
  5. the edit grammar: an independent validator written from the documentation (doc_edit_valid) vs the real parser;
  6. `example` end to end in a sandbox tree;
- 7. replays the known-finding witnesses (known_findings.txt).
+ 7. the inputs of the former known-finding classes (name-not-ident, leaf-not-bare, edit-empty-list, family-edit-form,
+    example-unknown-option, inter-end-type; all repaired in the crate) are regression inputs of the corpus: a recurrence is a
+    VIOLATION with that input.  No known-finding class remains.
 """
 import os, re, random, json, itertools
 import hook, inst, gen_impl, c19_gen as G
@@ -166,120 +168,132 @@ def small_scopes(files, rng, tier):
     return cases
 
 
-KNOWN_WITNESSES = {
-    # class -> (job kind, trees, what the real code does, why it fails the property)
-    "name-not-ident": ("actor", [G.NV("name", G.S("1x"))], "PANIC", "name = \"1x\" panics in format_ident! instead of producing a diagnostic"),
-    "leaf-not-bare": ("actor", [G.L("Debug", G.P("foo"))], "OK", "Debug(foo) / include(inc = 1) / Mutex = 1 are accepted, the extra part is silently dropped"),
-    "edit-empty-list": ("actor", [G.L("edit", G.L("script"))], "OK", "edit(script()) / edit() / imp() are accepted and silently mean nothing"),
-    "family-edit-form": ("family", [G.L("edit", G.P("def"), G.P("imp")), G.L("actor", G.NV("first_name", G.S("U")))], "DIAG",
-                         "documented family edit(def, imp) and member edit(script(..)) / edit(live(..)) are rejected"),
-    "example-unknown-option": ("example", None, "OK", "example(path = .., bogus, main = 5) is accepted: unknown options and non-bare `main` silently ignored"),
-}
+def regression_inputs(files):
+    """inputs of the former known-finding classes with the documented answer (kind, trees, origin)"""
+    mem = G.L("actor", G.NV("first_name", G.S("U")))
+    f1 = G.NV("file", G.S(files["one"]))
+    return [
+        ("actor", [G.NV("name", G.S("1x"))], "regress:name-not-ident"), ("actor", [G.NV("name", G.S("a b"))], "regress:name-not-ident"),
+        ("family", [G.L("actor", G.NV("first_name", G.S("a-b")))], "regress:name-not-ident"), ("family", [G.NV("name", G.S("9")), mem], "regress:name-not-ident"),
+        ("actor", [G.L("Debug", G.P("foo"))], "regress:leaf-not-bare"), ("actor", [G.NV("Debug", G.S("x"))], "regress:leaf-not-bare"),
+        ("actor", [G.L("include", G.NV("inc", G.I(1)))], "regress:leaf-not-bare"), ("actor", [G.L("exclude", G.L("inc", G.P("x")))], "regress:leaf-not-bare"),
+        ("family", [G.NV("Mutex", G.I(1)), mem], "regress:leaf-not-bare"), ("family", [G.L("RwLock", G.P("x")), mem], "regress:leaf-not-bare"),
+        ("actor", [G.L("edit", G.L("live", G.L("def", G.P("x"))))], "regress:leaf-not-bare"), ("actor", [G.L("edit", G.L("live", G.L("imp", G.NV("inc", G.I(1)))))], "regress:leaf-not-bare"),
+        ("actor", [f1, G.L("edit", G.L("live", G.L("imp", G.L("file", G.L("file", G.P("a"))))))], "regress:leaf-not-bare"),
+        ("actor", [G.L("edit", G.L("script"))], "regress:edit-empty-list"), ("actor", [G.L("edit")], "regress:edit-empty-list"),
+        ("actor", [G.L("edit", G.L("live", G.L("imp")))], "regress:edit-empty-list"), ("actor", [f1, G.L("edit", G.L("file"))], "regress:edit-empty-list"),
+        ("family", [G.L("edit"), mem], "regress:edit-empty-list"), ("family", [G.L("actor", G.NV("first_name", G.S("U")), G.L("edit", G.L("script")))], "regress:edit-empty-list"),
+        ("actor", [G.P("edit")], "regress:edit-forms"), ("actor", [f1, G.L("edit", G.P("file"))], "regress:edit-forms"), ("actor", [G.L("edit", G.P("script"), G.L("live", G.P("imp")))], "regress:edit-forms"),
+        ("family", [G.L("edit", G.P("def"), G.P("imp")), mem], "regress:family-edit-form"), ("family", [G.L("edit", G.P("def")), mem], "regress:family-edit-form"),
+        ("family", [G.L("edit", G.L("imp", G.P("new")), G.P("trt"), G.P("def")), mem], "regress:family-edit-form"),
+        ("family", [f1, G.L("edit", G.L("file", G.P("def")), G.P("imp")), mem], "regress:family-edit-form"),
+        ("family", [G.L("actor", G.NV("first_name", G.S("U")), G.L("edit", G.L("script", G.P("def"))))], "regress:family-edit-form"),
+        ("family", [G.L("actor", G.NV("first_name", G.S("U")), G.L("edit", G.L("live", G.L("imp", G.P("inc")))))], "regress:family-edit-form"),
+        ("family", [G.L("actor", G.NV("first_name", G.S("U")), G.L("edit", G.P("script"), G.P("live")))], "regress:family-edit-form"),
+        ("example", [G.NV("path", G.S(files["one"])), G.P("bogus")], "regress:example-unknown-option"), ("example", [G.NV("path", G.S(files["one"])), G.NV("main", G.I(5))], "regress:example-unknown-option"),
+        ("example", [G.NV("path", G.S(files["one"])), G.L("main", G.P("x"))], "regress:example-unknown-option"), ("example", [G.NV("path", G.S(files["one"])), ("P", ["a", "b"])], "regress:example-unknown-option"),
+        ("example", [G.NV("path", G.S(files["one"])), G.L("expand", G.L("actor", G.P("x")))], "regress:example-unknown-option"),
+        ("example", [G.NV("path", G.S(files["one"])), G.L("expand", G.NV("family", G.I(1)))], "regress:example-unknown-option"),
+        ("family", [G.NV("channel", G.I(3)), G.L("actor", G.NV("first_name", G.S("U")), G.NV("channel", G.I(0)))], "regress:F4"),
+    ]
 
 
 # ---------------------------------------------------------------- independent validator of the edit grammar (from the docs)
-def doc_edit_valid(t):
-    """`edit` of the actor macro as documented (lib.rs `# edit`, `# file`; error.rs AVAIL_EDIT, HELP_EDIT_FILE_ACTOR):
-       edit | edit(file) | edit(item, ..) with item := sol | file(sol, ..); sol := script | live, bare or with parts;
-       part := def | imp | imp(names) | trt | trt(names), possibly wrapped in file(..); names possibly wrapped in file(..);
-       script / live once; def / imp / trt once per struct; names once per list; `file` never inside `file`.
-       Returns (valid, in_known_class)"""
-    known = [False]
-    seen_sol = set()
+def _names(lst, in_file):
+    seen = set()
 
-    def names(lst, in_file, seen):
-        for x in lst:
-            if x[0] == "L" and x[1] == ["file"] and True:
-                if in_file:
-                    return False
-                if not x[2]:
-                    known[0] = True
-                for y in x[2]:
-                    if y[1] == ["file"] and y[0] == "L":
-                        known[0] = True    # imp(file(file(a))): the inner file(a) is taken as a (non-bare) name `file`
-                        return False
-                    if not name1(y, seen):
-                        return False
-            elif not name1(x, seen):
-                return False
-        return True
-
-    def name1(x, seen):
-        if len(x[1]) != 1:
-            return False
-        if x[0] != "P":
-            known[0] = True            # imp(inc = 1), imp(inc(x)): leaf-not-bare
-        if x[1][0] in seen:
+    def name1(x):
+        if x[0] != "P" or len(x[1]) != 1 or x[1][0] in seen:      # a bare word, once
             return False
         seen.add(x[1][0])
         return True
+    if not lst:
+        return False
+    for x in lst:
+        if x[0] == "L" and x[1] == ["file"]:
+            if in_file or not x[2]:
+                return False
+            for y in x[2]:
+                if not name1(y):
+                    return False
+        elif not name1(x):
+            return False
+    return True
 
-    def part(x, in_file, seen_parts):
-        if len(x[1]) != 1 or x[1][0] not in ("def", "imp", "trt"):
+
+def _part(x, in_file, seen_parts):
+    if len(x[1]) != 1 or x[1][0] not in ("def", "imp", "trt"):
+        return False
+    k = x[1][0]
+    if k in seen_parts:
+        return False
+    seen_parts.add(k)
+    if k == "def":
+        return x[0] == "P"
+    if x[0] == "P":
+        return True
+    return x[0] == "L" and _names(x[2], in_file)
+
+
+def _parts(lst, in_file, seen_parts):
+    """def | imp[(names)] | trt[(names)], possibly wrapped in file(..) (not inside file)"""
+    if not lst:
+        return False
+    for p in lst:
+        if p[1] == ["file"]:
+            if in_file or p[0] != "L" or not p[2]:
+                return False
+            for q in p[2]:
+                if q[1] == ["file"] or not _part(q, True, seen_parts):
+                    return False
+        elif not _part(p, in_file, seen_parts):
             return False
-        k = x[1][0]
-        if k in seen_parts:
-            return False
-        seen_parts.add(k)
-        if k == "def":
-            if x[0] != "P":
-                known[0] = True
-            return True
-        if x[0] == "P":
-            return True
-        if x[0] != "L":
-            return False
-        if not x[2]:
-            known[0] = True
-        return names(x[2], in_file, set())
+    return True
+
+
+def doc_edit_valid(t):
+    """`edit` of the actor macro and of family members, as documented (lib.rs `# edit`, `# file`; error.rs AVAIL_EDIT, HELP_EDIT_FILE_ACTOR):
+       edit | edit(file) | edit(item, ..) with item := sol | file(sol, ..); sol := script | live, bare or with parts;
+       part := def | imp | imp(names) | trt | trt(names), possibly wrapped in file(..); names possibly wrapped in file(..);
+       script / live once; def / imp / trt once per struct; names once per list; `file` never inside `file`; no empty list; leaves are bare words."""
+    seen_sol = set()
 
     def sol(x, in_file):
-        if len(x[1]) != 1 or x[1][0] not in ("script", "live"):
-            return False
-        if x[1][0] in seen_sol:
+        if len(x[1]) != 1 or x[1][0] not in ("script", "live") or x[1][0] in seen_sol:
             return False
         seen_sol.add(x[1][0])
         if x[0] == "P":
             return True
-        if x[0] != "L":
-            return False
-        if not x[2]:
-            known[0] = True
-        sp = set()
-        for p in x[2]:
-            if p[1] == ["file"]:
-                if in_file or p[0] != "L":
-                    return False
-                if not p[2]:
-                    known[0] = True
-                for q in p[2]:
-                    if q[1] == ["file"] or not part(q, True, sp):
-                        return False
-            elif not part(p, in_file, sp):
-                return False
-        return True
+        return x[0] == "L" and _parts(x[2], in_file, set())
 
     if t[0] == "P":
-        return True, False
-    if t[0] != "L":
-        return False, False
+        return True
+    if t[0] != "L" or not t[2]:
+        return False
     kids = t[2]
-    if not kids:
-        return True, True
     if len(kids) == 1 and kids[0] == ("P", ["file"]):
-        return True, False
+        return True
     for x in kids:
         if x[1] == ["file"]:
-            if x[0] != "L":
-                return False, known[0]
-            if not x[2]:
-                known[0] = True
+            if x[0] != "L" or not x[2]:
+                return False
             for y in x[2]:
                 if y[1] == ["file"] or not sol(y, True):
-                    return False, known[0]
+                    return False
         elif not sol(x, False):
-            return False, known[0]
-    return True, known[0]
+            return False
+    return True
+
+
+def doc_family_edit_valid(t):
+    """`edit` of the macro `family` itself as lib.rs documents it: edit | edit(file) | edit(def, imp(..), trt(..)) with optional file(..) wrappers"""
+    if t[0] == "P":
+        return True
+    if t[0] != "L" or not t[2]:
+        return False
+    if len(t[2]) == 1 and t[2][0] == ("P", ["file"]):
+        return True
+    return _parts(t[2], False, set())
 
 
 def random_edit(rng, depth=0):
@@ -382,7 +396,7 @@ def method_rule_jobs(rng, tier):
                 ("inter-param-with-interact", "actor", attr("interact"), impl([rng.choice(["pub fn tgt(&self, inter_send: oneshot::Sender<u8>) {}", "pub fn tgt(&mut self, a: u8, inter_recv: oneshot::Receiver<u8>) {}"])]), "TOKENS", False),
                 ("both-channel-ends", "actor", attr("interact"), impl(["pub fn tgt(&self, inter_send: oneshot::Sender<u8>, inter_recv: oneshot::Receiver<u8>) {}"]), "DIAG", False),
                 ("channel-end-in-returning-method", "actor", attr("interact"), impl([rng.choice(["pub fn tgt(&self, inter_send: oneshot::Sender<u8>) -> u8 { 0 }", "pub fn tgt(&self, a: u8, inter_recv: oneshot::Receiver<u8>) -> u8 { 0 }"])]), "DIAG", False),
-                ("channel-end-wrong-type", "actor", attr("interact"), impl(["pub fn tgt(&self, inter_send: Vec<u8>) {}"]), "DIAG", True),
+                ("channel-end-wrong-type", "actor", attr("interact"), impl([rng.choice(["pub fn tgt(&self, inter_send: Vec<u8>) {}", "pub fn tgt(&self, inter_recv: Option<u8>) {}", "pub fn tgt(&self, inter_send: oneshot::Receiver<u8>) {}"])]), "DIAG", False),
             ]
             if lib == "std":
                 jobs += [("async-without-runtime", "actor", "", impl(["pub async fn tgt(&self, n: u8) {}"]), "DIAG", False)]
@@ -404,13 +418,13 @@ def coq_items(cases):
     for i, (kind, trees, _) in enumerate(cases):
         l = G.coq_list(trees)
         if kind == "example":
-            ex = ('r_res r_ecfg (parse_example fx %s) ++ "|" ++ b01 (valid_example fx %s) ++ "0" ++ "0" ++ b01 (k_example %s) ++ "0" ++ "|"' % (l, l, l))
+            ex = ('r_res r_ecfg (parse_example fx %s) ++ "|" ++ b01 (valid_example fx %s) ++ "0" ++ "|"' % (l, l))
         elif kind == "actor":
-            ex = ('r_res r_cfg (parse_args fx fc Actor %s) ++ "|" ++ b01 (valid_actor fx fc %s) ++ b01 (existsb k_leaf_item %s) ++ b01 (k_name %s) ++ "0" ++ b01 (existsb doc_silent_item %s) ++ "|" ++ r_cfg (denote_actor %s)'
-                  % (l, l, l, l, l, l))
+            ex = ('r_res r_cfg (parse_args fx fc Actor %s) ++ "|" ++ b01 (valid_actor fx fc %s) ++ b01 (existsb doc_silent_item %s) ++ "|" ++ r_cfg (denote_actor %s)'
+                  % (l, l, l, l))
         else:
-            ex = ('r_res r_cfg (parse_args fx fc Family %s) ++ "|" ++ b01 (valid_family fx fc %s) ++ b01 (k_leaf %s) ++ b01 (k_name %s) ++ "0" ++ b01 (doc_silent_family %s) ++ "|" ++ r_cfg (denote_family %s)'
-                  % (l, l, l, l, l, l))
+            ex = ('r_res r_cfg (parse_args fx fc Family %s) ++ "|" ++ b01 (valid_family fx fc %s) ++ b01 (doc_silent_family %s) ++ "|" ++ r_cfg (denote_family %s)'
+                  % (l, l, l, l))
         items.append(("c%d" % i, ex))
     return items
 
@@ -444,15 +458,6 @@ def edit_names(trees):
             return True
         if G.key(t) == "actor" and t[0] == "L" and any(G.key(x) == "edit" and named(x) for x in t[2]):
             return True
-    return False
-
-
-def edit_known(trees):
-    """edit-empty-list / leaf-not-bare inside an edit option of the list (actor macro), decided by the documented grammar"""
-    for t in trees:
-        if G.key(t) == "edit":
-            if doc_edit_valid(t)[1]:
-                return True
     return False
 
 
@@ -536,15 +541,8 @@ def run(rep):
     for nmv in G.GOOD_NAMES + G.BAD_NAMES:
         cases.append(("actor", [G.NV("name", G.S(nmv))], "name"))
         cases.append(("family", [G.L("actor", G.NV("first_name", G.S(nmv)))], "name"))
-    # known-finding witnesses and neighbours
-    for cls, (k, ts, _, _) in KNOWN_WITNESSES.items():
-        if ts is not None:
-            cases.append((k, ts, "known:" + cls))
-    cases.append(("example", [G.NV("path", G.S(files["one"])), G.P("bogus"), G.NV("main", G.I(5))], "known:example-unknown-option"))
-    cases += [("actor", [G.L("include", G.NV("inc", G.I(1)))], "known:leaf-not-bare"), ("family", [G.NV("Mutex", G.I(1)), G.L("actor", G.NV("first_name", G.S("U")))], "known:leaf-not-bare"),
-              ("family", [G.L("actor", G.NV("first_name", G.S("U")), G.L("edit", G.L("script", G.P("def"))))], "known:family-edit-form"),
-              ("family", [G.L("actor", G.NV("first_name", G.S("U")), G.L("edit", G.L("live", G.L("imp", G.P("inc")))))], "known:family-edit-form"),
-              ("family", [G.NV("channel", G.I(3)), G.L("actor", G.NV("first_name", G.S("U")), G.NV("channel", G.I(0)))], "fixed:F4")]
+    # inputs of the former known-finding classes (regression)
+    cases += regression_inputs(files)
 
     jobs = []
     for kind, trees, _ in cases:
@@ -575,7 +573,7 @@ def run(rep):
             continue
         real_s = ("OK " + rf[0]) if rc == "VALUE" else rc
         mod_s, flags, den = unq(vals["c%d" % i]).split("|", 2)
-        valid, kleaf, kname, kex, silent = [c == "1" for c in flags]
+        valid, silent = [c == "1" for c in flags]
         cls = real_s.split()[0]
         rep.count("macro", kind)
         rep.count("class", cls)
@@ -587,9 +585,7 @@ def run(rep):
             rep.sample({"macro": kind, "attr": attr[:300], "real": real_s[:200], "model": mod_s[:200], "valid": valid})
         ok_corr = rep.oblige(real_s == mod_s)
         # oracle: the documented validator and denotation, on the REAL output
-        eknown = kind == "actor" and edit_known(trees)
-        in_known = kleaf or kname or kex or eknown
-        oracle_applies = not in_known and not silent
+        oracle_applies = not silent
         oracle_ok = True
         if oracle_applies:
             if (cls == "OK") != valid or cls == "PANIC":
@@ -601,9 +597,6 @@ def run(rep):
             accepted_for_b.append((kind, trees, rf[0]))
         if ok_corr and oracle_ok:
             continue
-        if in_known and not ok_corr and ((cls == "OK") == valid and cls != "PANIC"):
-            rep.notes.append("input of a known-finding class now agrees with the validator (defect fixed?): %s(%s)" % (kind, attr[:200]))
-            continue
         n_mis += 1
         data = {"macro": kind, "attr": attr, "origin": origin, "real": real_s, "model": mod_s, "validator_says_valid": valid, "documented_meaning": den,
                 "replay": "hook job fn:attr_args ['', %r, %r]" % (kind, attr)}
@@ -613,36 +606,60 @@ def run(rep):
                              "rejected a valid configuration" if cls != "OK" and valid else "accepted configuration differs from the documented meaning of the options"))
             pending.append((0, len(attr), "options_%d" % i, data, True))
         else:
-            data["what"] = "model and real parser differ on an input where the documentation is silent or a known-finding class applies; correspondence of Gen/Attr.v no longer checks"
+            data["what"] = "model and real parser differ on an input where the documentation is silent; correspondence of Gen/Attr.v no longer checks"
             pending.append((1, len(attr), "correspondence_%d" % i, data, False))
     # concrete failing inputs first, shortest first; at most 8 replay files
     for _, _, name, data, found in sorted(pending, key=lambda x: x[:3])[:8]:
         data["mismatching_cases_in_this_run"] = n_mis
         rep.violation(name, data, found=found)
 
-    # ---- 3. edit grammar: independent validator vs the real parser
-    ecases = []
+    # ---- 3. edit grammar: independent validators (written from the docs) vs the real parser, in the three positions of `edit`
+    ecases = []          # (position, edit tree)
+    f1 = G.NV("file", G.S(files["one"]))
     for _ in range(150 if quick else 2500):
-        e = G.gen_edit_actor(rng, True)
-        ecases.append(e)
-        ecases.append(G.L("edit", *[random_edit(rng) for _ in range(rng.randint(0, 3))]))
-    ecases += [G.L("edit", G.L("file", G.L("script", G.L("file", G.P("def"))))), G.L("edit", G.L("script"), G.P("script")), G.L("edit", G.P("script"), G.P("script")),
-               G.L("edit", G.L("live", G.P("def"), G.P("def"))), G.L("edit", G.L("live", G.L("imp", G.P("inc"), G.P("inc")))), G.L("edit", G.P("live"), G.L("file", G.P("live"))),
-               G.L("edit", G.P("file"), G.P("live")), G.L("edit", G.L("live", G.L("imp", G.L("file", G.L("file", G.P("a"))))))]
-    ejobs = [("fn:attr_args", ["", "actor", G.rust_list([e, G.NV("file", G.S(files["one"]))])]) for e in ecases]
+        ecases.append(("actor", G.gen_edit_actor(rng, True)))
+        ecases.append(("actor", G.L("edit", *[random_edit(rng) for _ in range(rng.randint(0, 3))])))
+        ecases.append(("member", G.gen_edit_actor(rng, True)))
+        ecases.append(("member", G.L("edit", *[random_edit(rng) for _ in range(rng.randint(0, 3))])))
+        ecases.append(("family", G.gen_edit_family(rng, True)))
+        ecases.append(("family", G.L("edit", *[random_edit(rng, 1) for _ in range(rng.randint(0, 3))])))
+    fixed_edits = [G.L("edit", G.L("file", G.L("script", G.L("file", G.P("def"))))), G.L("edit", G.L("script"), G.P("script")), G.L("edit", G.P("script"), G.P("script")),
+                   G.L("edit", G.L("live", G.P("def"), G.P("def"))), G.L("edit", G.L("live", G.L("imp", G.P("inc"), G.P("inc")))), G.L("edit", G.P("live"), G.L("file", G.P("live"))),
+                   G.L("edit", G.P("file"), G.P("live")), G.L("edit", G.L("live", G.L("imp", G.L("file", G.L("file", G.P("a")))))), G.L("edit"), G.L("edit", G.L("script")),
+                   G.L("edit", G.L("live", G.L("imp"))), G.L("edit", G.L("file")), G.L("edit", G.L("live", G.L("def", G.P("x")))), G.L("edit", G.L("live", G.L("imp", G.NV("inc", G.I(1))))),
+                   G.P("edit"), G.L("edit", G.P("file")), G.L("edit", G.P("script"), G.P("live")), G.L("edit", G.L("live", G.P("imp")))]
+    ecases += [("actor", e) for e in fixed_edits] + [("member", e) for e in fixed_edits]
+    ecases += [("family", e) for e in [G.L("edit"), G.L("edit", G.P("def"), G.P("imp")), G.L("edit", G.P("def"), G.P("def")), G.L("edit", G.L("file", G.P("def")), G.P("imp")),
+                                       G.L("edit", G.L("file", G.L("file", G.P("def")))), G.L("edit", G.L("imp", G.L("file", G.P("new")))), G.L("edit", G.L("file", G.L("imp", G.L("file", G.P("new"))))),
+                                       G.L("edit", G.L("imp")), G.L("edit", G.L("def", G.P("x"))), G.L("edit", G.P("bogus")), G.L("edit", G.P("file")), G.P("edit"), G.L("edit", G.L("file"))]]
+    ejobs = []
+    for pos, e in ecases:
+        if pos == "actor":
+            ejobs.append(("fn:attr_args", ["", "actor", G.rust_list([e, f1])]))
+        elif pos == "member":
+            ejobs.append(("fn:attr_args", ["", "family", G.rust_list([f1, G.L("actor", G.NV("first_name", G.S("U")), e)])]))
+        else:
+            ejobs.append(("fn:attr_args", ["", "family", G.rust_list([e, f1, G.L("actor", G.NV("first_name", G.S("U")))])]))
     eres = hook.run_parallel(ejobs, tag="c19e", shards=12)
-    for e, (rc, rf) in zip(ecases, eres):
+    n_edit_bad = 0
+    for (pos, e), (kindj, fj), (rc, rf) in zip(ecases, ejobs, eres):
         rep.evaluations += 1
-        dv, dk = doc_edit_valid(e)
-        rep.count("edit", "valid" if dv else "invalid")
-        if dk:
-            rep.count("edit", "known-class")
-            continue
+        if pos == "family":
+            dv = doc_family_edit_valid(e)
+            if e[0] == "L" and any(x[1] in (["script"], ["live"]) or (x[1] == ["file"] and x[0] == "L" and any(y[1] in (["script"], ["live"]) for y in x[2])) for x in e[2]):
+                rep.count("edit", "family-doc-conflict")
+                continue      # lib.rs and AVAIL_FAMILY disagree about edit(live(..)) at family level
+        else:
+            dv = doc_edit_valid(e)
+        rep.count("edit", pos + (":valid" if dv else ":invalid"))
         acc = rc == "VALUE"
         if not rep.oblige(acc == dv and rc != "PANIC"):
+            n_edit_bad += 1
+            if n_edit_bad > 6:
+                continue
             rep.violation("edit_grammar_%d" % len(rep.violations), {
-                "what": "edit grammar: real parser %s what the documented grammar says is %s" % ("accepts" if acc else "rejects", "valid" if dv else "invalid"),
-                "attr": G.rust_list([e, G.NV("file", G.S(files["one"]))]), "real": rc + " " + (rf[0][:300] if rf else "")}, found=True)
+                "what": "edit grammar (%s position): real parser %s what the documented grammar says is %s" % (pos, "accepts" if acc else "rejects", "valid" if dv else "invalid"),
+                "macro": fj[1], "attr": fj[2], "real": rc + " " + (rf[0][:300] if rf else "")}, found=True)
 
     # ---- 4. tie B: end to end with a fixed impl block
     bcases = []
@@ -709,17 +726,10 @@ def run(rep):
     # ---- 5. method-level rules
     mj = method_rule_jobs(rng, rep.tier)
     mres = hook.run_parallel([(k, [a, it]) for _, k, a, it, _, _ in mj], tag="c19m", shards=12)
-    inter_known_seen = False
     for (rule, kind, attr, item, want, known), (rc, rf) in zip(mj, mres):
         rep.evaluations += 1
         rep.count("method-rule", rule)
         rep.nontrivial.add(("M", rule, kind))
-        if known:
-            if rc != want:
-                inter_known_seen = True
-            else:
-                rep.notes.append("known finding inter-end-type no longer reproduces")
-            continue
         if not rep.oblige(rc == want):
             rep.violation("method_rule_%s_%d" % (rule, len(rep.violations)), {
                 "what": "method-level rule `%s`: expected %s, the macro answered %s" % (rule, want, rc), "macro": kind, "attr": attr, "item": item,
@@ -743,35 +753,16 @@ def run(rep):
     import shutil
     shutil.rmtree(sb, ignore_errors=True)
 
-    # ---- 7. known findings: replay the witnesses on the real code
-    kf = {f.get("class"): f for f in known_findings()["finding"] if f.get("property") == PID}
-    by_origin = {}
-    for (kind, trees, origin), (rc, rf) in zip(cases, real):
-        if origin.startswith("known:"):
-            by_origin.setdefault(origin[6:], []).append((kind, trees, rc, rf))
-    for cls, (k, ts, behaviour, why) in KNOWN_WITNESSES.items():
-        still = False
-        for kind, trees, rc, rf in by_origin.get(cls, []):
-            got = "OK" if rc == "VALUE" else rc
-            if got == behaviour:
-                still = True
-        if still and cls in kf:
-            rep.known_finding("%s: %s" % (cls, why))
-        elif still:
-            rep.violation("unlisted_finding_" + cls, {"what": why, "class": cls}, found=True)
-        else:
-            rep.notes.append("known finding %s no longer reproduces" % cls)
-    if inter_known_seen:
-        if "inter-end-type" in kf:
-            rep.known_finding("inter-end-type: with `interact`, a parameter `inter_send: Vec<u8>` is accepted as a channel end (oneshot_get_type compares target with itself)")
-        else:
-            rep.violation("unlisted_finding_inter_end_type", {"what": "inter_send: Vec<u8> accepted as a channel end"}, found=True)
+    # ---- 7. no known-finding class remains for C19; a `finding:` line for C19 in known_findings.txt would be stale
+    stale = [f for f in known_findings()["finding"] if f.get("property") == PID]
+    if stale:
+        rep.notes.append("known_findings.txt still lists C19 classes that the check no longer recognises: %s" % [f.get("class") for f in stale])
 
     rep.assumptions += [
         "ASCII option values; `name` / `first_name` strings are not Rust keywords, `_` or raw identifiers (format_ident! is modelled on [A-Za-z_][A-Za-z0-9_]*)",
         "attribute text that syn does not parse as a comma separated Meta list (e.g. `x = 1 + 1` parses, `1 2` does not) is outside the corpus of tie A",
         "files named by `file` / `path` parse as Rust source; fexists / fcount are realised by three sandbox files (one / two / zero file-active macros) and a missing path",
-        "the inner grammar of edit(..) is delegated to the model's edit parser inside valid_*; it is checked against an independent validator of the documented grammar (doc_edit_valid) on the real parser",
-        "documentation-silent zones (Debug; lib / name / debut / file / edit inside a member; any edit at family level) are compared model-vs-real only, the oracle is silent there",
+        "the inner grammar of edit(..) is delegated to the model's edit parsers inside valid_*; it is checked against independent validators of the documented grammar (doc_edit_valid, doc_family_edit_valid) on the real parser in the actor, member and family position",
+        "documentation-silent zones (Debug; lib / name / debut / file inside a member; a family-level edit mentioning script / live, where lib.rs and AVAIL_FAMILY disagree) are compared model-vs-real only, the oracle is silent there",
         "tie B uses one fixed impl block (4 public methods + constructor), all runtime crates declared in the manifest; configurations with active file markers are not expanded (they rewrite the source file: C16/C17)",
     ]
